@@ -410,7 +410,8 @@ pub fn generate(rng: &mut Rng, property: &str, deep: bool) -> Scn {
         }
         if dt.is_none() {
             if rng.chance(tk.p_zero) {
-                dt = Some((0.0, Fault::ZeroFrame));
+                // (a zero-length frame may carry a sign bit: -0.0 is a valid zero)
+                dt = Some((if rng.chance(0.2) { -0.0 } else { 0.0 }, Fault::ZeroFrame));
             } else if rng.chance(tk.p_hitch) {
                 let total = cur_m.and_then(oracle::merged_total).unwrap_or(4.0).min(600.0);
                 let v = if knobs.grid {
